@@ -1437,3 +1437,104 @@ def m_prim_assign_ops(ex, st, fr, path, args, m):
         raise Panic(f"attempt to {op.lower()} with overflow")
     ex.write_loc(Loc(r.cell, r.path), res.fields[0])
     return UNIT
+
+
+# ------------------------------------------------------------------------------------------------
+# BTreeMap<String, V> as a sorted association list (keys: byte strings; order = byte-wise, as str::cmp)
+#   value = Agg("struct", [VecObj([Agg tuple (key VecObj, val)])], name="BTreeMap")
+# ------------------------------------------------------------------------------------------------
+def btree_new():
+    return Agg("struct", [VecObj([])], name="BTreeMap")
+
+
+def btree_entries(m):
+    m = deref_val(m)
+    if not (isinstance(m, Agg) and m.name == "BTreeMap"):
+        raise Unsupported(f"BTreeMap expected, got {m!r}")
+    return m.fields[0].elems
+
+
+@model(r"^(?:std::collections::)?BTreeMap::<(.*)>::(new|insert|len|is_empty|lower_bound|upper_bound|get|contains_key|first_key_value|last_key_value)(::<.*>)?$")
+def m_btreemap(ex, st, fr, path, args, m):
+    op = m.group(2)
+    if op == "new":
+        return btree_new()
+    ents = btree_entries(args[0])
+    if op == "len":
+        return I("usize", len(ents))
+    if op == "is_empty":
+        return I("bool", len(ents) == 0)
+    if op == "insert":
+        key, val = args[1], args[2]
+        pos = len(ents)
+        for k, e in enumerate(ents):
+            c = bytes_cmp(ex, st, key, e.fields[0])
+            if c == 0:
+                old = e.fields[1]
+                e.fields[1] = val
+                return some(old)
+            if c < 0:
+                pos = k
+                break
+        ents.insert(pos, Agg("tuple", [key, val]))
+        return NONE()
+    if op in ("lower_bound", "upper_bound"):
+        bound = args[1]
+        r = args[0]
+        if bound.variant == "Unbounded":
+            idx = 0 if op == "lower_bound" else len(ents)
+        else:
+            key = bound.fields[0]
+            idx = len(ents)
+            for k, e in enumerate(ents):
+                c = bytes_cmp(ex, st, e.fields[0], key)
+                if op == "lower_bound":
+                    hit = c >= 0 if bound.variant == "Included" else c > 0      # first entry not below the bound
+                else:
+                    hit = c > 0 if bound.variant == "Included" else c >= 0
+                if hit:
+                    idx = k
+                    break
+        return Agg("struct", [r, I("usize", idx)], name="BTreeCursor")
+    if op in ("get", "contains_key"):
+        key = args[1]
+        for k, e in enumerate(ents):
+            if bytes_cmp(ex, st, e.fields[0], key) == 0:
+                if op == "contains_key":
+                    return I("bool", 1)
+                r = args[0]
+                return some(Ref(r.cell, r.path + (("f", 0), ("i", k), ("f", 1))))
+        return I("bool", 0) if op == "contains_key" else NONE()
+    return NotImplemented
+
+
+@model(r"^(?:std::collections::)?btree_map::Cursor::<.*>::(peek_next|peek_prev)$")
+def m_btree_cursor(ex, st, fr, path, args, m):
+    cur = deref_val(args[0])
+    mapref, idx = cur.fields
+    ents = btree_entries(mapref)
+    k = idx.v if m.group(1) == "peek_next" else idx.v - 1
+    if 0 <= k < len(ents):
+        base = mapref.path + (("f", 0), ("i", k))
+        return some(Agg("tuple", [Ref(mapref.cell, base + (("f", 0),)), Ref(mapref.cell, base + (("f", 1),))]))
+    return NONE()
+
+
+@model(r"^(?:std::sync::)?Arc::<(.*)>::new$")
+def m_arc_new(ex, st, fr, path, args, m):
+    return Ref(Cell(args[0]), (), None, False, False)
+
+
+@model(r"^(?:std::sync::atomic::)?Atomic(Bool|Usize|U64)::(new|load|store)$")
+def m_atomic(ex, st, fr, path, args, m):
+    from .interp import Loc
+    op = m.group(2)
+    if op == "new":
+        return Agg("struct", [args[0]], name="Atomic")
+    a = deref_val(args[0])
+    if isinstance(a, Ref):
+        a = deref_val(a)
+    if op == "load":
+        return a.fields[0]
+    a.fields[0] = args[1]
+    return UNIT
